@@ -156,7 +156,15 @@ def run_verus(rs, modules, tag, rlimit=None):
     for m in modules or []:
         cmd += ['--verify-only-module', m]
     t0 = time.time()
-    p = subprocess.run(cmd, cwd=os.path.dirname(rs), stdout=subprocess.PIPE, stderr=subprocess.PIPE, text=True)
+    # hard wall-clock limit: z3 does not always honour its resource limit (seen: 2 h inside one query); a run that hits it is
+    # undecided, never an alarm
+    wall = int(os.environ.get('PSC_VERUS_WALL_S', '2400'))
+    try:
+        p = subprocess.run(['timeout', '-k', '10', str(wall)] + cmd, cwd=os.path.dirname(rs), stdout=subprocess.PIPE, stderr=subprocess.PIPE, text=True)
+    except Exception as e:
+        raise Undecided('verus could not be run: %s' % e)
+    if p.returncode in (124, 137):
+        raise Undecided('verus exceeded the wall-clock limit of %d s (modules %s)' % (wall, ' '.join(modules or [])[:300]))
     dt = time.time() - t0
     try:
         js = json.loads(p.stdout)
@@ -189,15 +197,16 @@ def attribute(meta, line):
     return best
 
 
-def verus_property_run(prop, config, tag, tier, extra_modules=None):
-    """Generate, select modules tagged with `prop`, verify; returns a result dict."""
-    rs, meta = generate(config, tag, tier)
-    mods = sorted(m for m, d in meta['modules'].items() if prop in d['props'])
-    lemma_mods = sorted(set(l['module'] for l in meta['lemmas'] if prop in l['props']))
-    sel = sorted(set(mods + lemma_mods + [m for m in (extra_modules or []) if m in meta['modules']]))
-    if not sel:
-        raise Undecided('no Verus module is tagged with %s' % prop)
-    res = run_verus(rs, sel, tag, rlimit=(200 if tier == 'thorough' else 40))
+def _module_of_line(meta, line):
+    inner = None
+    for mname, (a, b) in meta.get('module_lines', {}).items():
+        if b is not None and a <= line <= b and (inner is None or a >= inner[1]):
+            inner = (mname, a)
+    return inner[0] if inner else None
+
+
+def _verus_pass(rs, meta, sel, tag, rlimit):
+    res = run_verus(rs, sel, tag, rlimit=rlimit)
     js = res['json']
     if js is None:
         raise Undecided('verus produced no JSON (rc=%d): %s' % (res['rc'], res['stderr'][-1500:]))
@@ -233,9 +242,42 @@ def verus_property_run(prop, config, tag, tier, extra_modules=None):
             failures.append(item)
         else:
             undecided.append(item)
+    return res, vr, funcs, failures, undecided
+
+
+def verus_property_run(prop, config, tag, tier, extra_modules=None):
+    """Generate, select modules tagged with `prop`, verify; returns a result dict."""
+    rs, meta = generate(config, tag, tier)
+    mods = sorted(m for m, d in meta['modules'].items() if prop in d['props'])
+    lemma_mods = sorted(set(l['module'] for l in meta['lemmas'] if prop in l['props']))
+    sel = sorted(set(mods + lemma_mods + [m for m in (extra_modules or []) if m in meta['modules']]))
+    if not sel:
+        raise Undecided('no Verus module is tagged with %s' % prop)
+    rl = 200 if tier == 'thorough' else 40
+    res, vr, funcs, failures, undecided = _verus_pass(rs, meta, sel, tag, rl)
+    # second pass: a function that ran out of its resource limit is retried alone (its module only) with ten times
+    # the limit before it is reported as undecided -- rlimit exhaustion on the unchanged tree must not depend on the
+    # family seed or on solver luck
+    def _is_rl(u):
+        return isinstance(u, dict) and re.search(r'rlimit|Resource limit', u['msg'])
+    rl_mods = set()
+    for u in undecided:
+        if _is_rl(u):
+            mm = _module_of_line(meta, (u['lines'] or [0])[0])
+            if mm:
+                rl_mods.add(mm)
+    retried = None
+    if rl_mods and len(rl_mods) <= 6:
+        res2, vr2, funcs2, failures2, undecided2 = _verus_pass(rs, meta, sorted(rl_mods), tag, rl * 10)
+        keep = lambda it: not (isinstance(it, dict) and _module_of_line(meta, (it['lines'] or [0])[0]) in rl_mods)
+        funcs = [f for f in funcs if f['module'] not in rl_mods] + funcs2
+        failures = [f for f in failures if keep(f)] + failures2
+        undecided = [u for u in undecided if keep(u)] + undecided2
+        retried = {'modules': sorted(rl_mods), 'rlimit': rl * 10, 'wall_s': round(res2['wall_s'], 1), 'cmd': res2['cmd']}
+        res['wall_s'] += res2['wall_s']
     # rustc type errors (error[E....]) => undecided
     return {'rs': rs, 'meta': meta, 'modules': sel, 'verus': res, 'funcs': funcs, 'failures': failures,
-            'undecided': undecided, 'vr': vr}
+            'undecided': undecided, 'vr': vr, 'retried': retried}
 
 
 def load_known():
